@@ -532,7 +532,7 @@ impl Property for C10 {
     }
     fn budget(tier: Tier) -> u64 {
         match tier {
-            Tier::Quick => 60_000,
+            Tier::Quick => 200_000,
             Tier::Thorough => 3_000_000,
         }
     }
